@@ -3,6 +3,7 @@ package app
 // Evidence kinds (allegation, vote, release) and the C19 handler harness.
 
 import (
+	"bytes"
 	"fmt"
 	"time"
 
@@ -80,10 +81,32 @@ func svPreEvidence(pre *svEvPre, kind, actor int) func(e *svEnv) {
 		}
 		if pre.reqOpen {
 			ar := evidence.NewAllegationRequest("req1", svAddr(9), svParty_(1).Addr, 1, "proof")
+			// votes of two other validators, recorded before the parties' votes or around them
+			// (the list keeps the order of arrival)
+			others := 0
+			if kind == 1 && !svLean {
+				others = sv.Choice("ev.otherVotes", 3)
+			}
+			if others == 1 {
+				ar.Votes = append(ar.Votes, &evidence.AllegationVote{Address: svAddr(5), Choice: evidence.YES}, &evidence.AllegationVote{Address: svAddr(6), Choice: evidence.NO})
+			} else if others == 2 {
+				ar.Votes = append(ar.Votes, &evidence.AllegationVote{Address: svAddr(6), Choice: evidence.NO})
+			}
 			for i := 0; i < e.n; i++ {
 				if full(i) && sv.Choice("ev.voted"+svPartyName(i), 2) == 0 {
 					pre.voted[i] = true
 					ar.Votes = append(ar.Votes, &evidence.AllegationVote{Address: svParty_(i).Addr, Choice: evidence.YES})
+				}
+			}
+			if others == 2 {
+				ar.Votes = append(ar.Votes, &evidence.AllegationVote{Address: svAddr(5), Choice: evidence.YES})
+			}
+			if others > 0 {
+				// the store keeps the list ordered by address (Vote sorts after every insertion)
+				for a := 1; a < len(ar.Votes); a++ {
+					for b := a; b > 0 && bytes.Compare(ar.Votes[b-1].Address, ar.Votes[b].Address) > 0; b-- {
+						ar.Votes[b-1], ar.Votes[b] = ar.Votes[b], ar.Votes[b-1]
+					}
 				}
 			}
 			es.SetAllegationRequest(ar)
@@ -139,7 +162,7 @@ func svFreeze(e *svEnv, i, fr int) {
 
 // SV_C19_handlers: one allegation / vote / release transaction.
 //
-// sv:bounds 2 parties, each a validator or not, with arbitrary active flag and freeze record (none, frozen for a byzantine fault, released, frozen for missed votes); an allegation request against B open or not with yes-votes recorded from any subset (quick tier: the party that does not sign is an active validator or none, frozen for a byzantine fault or not, and has not voted); release time 1 day; block time 1 s, 1 day, 1 day + 1 s or 2 days after the freeze (Tendermint block time is strictly increasing and a release is admitted only after the freeze block is committed); kind: allegation (request id open/new, any accused), vote (any int8 choice), release; actor any party (who signs); mempool-admitted regime
+// sv:bounds 2 parties, each a validator or not, with arbitrary active flag and freeze record (none, frozen for a byzantine fault, released, frozen for missed votes); an allegation request against B open or not with yes-votes recorded from any subset of the parties and, for the vote kind, from none or two other validators (before or around them) (quick tier: the party that does not sign is an active validator or none, frozen for a byzantine fault or not, and has not voted); release time 1 day; block time 1 s, 1 day, 1 day + 1 s or 2 days after the freeze (Tendermint block time is strictly increasing and a release is admitted only after the freeze block is committed); kind: allegation (request id open/new, any accused), vote (any int8 choice), release; actor any party (who signs); mempool-admitted regime
 // sv:outside the block-end tally (SV_C19_tally); histories; a release delivered in the very block that froze the validator
 // sv:goal another open request (against somebody else, one recorded vote) is never changed; an allegation succeeds only if the reporter is an active validator, the accused is not frozen and is someone else; a vote succeeds only from an active, not frozen validator that has not voted on that request, with choice yes or no, and adds exactly that one vote; a release succeeds only for a frozen validator whose release time has elapsed (missed votes: at once) and un-freezes it; a refused transaction leaves the freeze state as it was
 func SV_C19_handlers() {
